@@ -9,6 +9,8 @@
    the existing DataArray_t node in place), ODelete name (cg_delete_node; [disp] says which dispatcher arm is taken for a node
    of a given kind and name) and OReopen (cg_close + cg_open: the arrays are rebuilt from the file, in file order -- except the kinds k with
    sk k = true, which are ordered by name: the zones and particle zones of a base, [cgns_sorted]).
+   OLink kind name id = cg_link_write followed by cg_close + cg_open (section 9; a link child is a child of the kind it
+   resolves to whose payload is its identity (file, path)).
    [view_session s k] is what cg_n* / cg_*_info / cg_*_read report for kind k now, [view_file sk s k] what they report
    after a fresh open; [i_run] applies the same history to the ideal tree (a finite map name -> (kind, payload)).
    Hypotheses of the positive theorems:
